@@ -79,6 +79,26 @@ CHECKS = {
          "Limit: every interleaving (<= 2 preemptions; thorough unbounded + a spurious CAS failure) of 2-3 threads feeding fast/slow/failed feedback into AimdController, Aimd and Vegas for three (min,initial,max) triples and decrease factors 0/0.5/1, with min <= limit <= max checked after every atomic step, plus every feedback sequence up to length 6-8 after three warm-ups. Service: every schedule of readiness checks, calls, polls, drops, gated completions (ok/err/panic) and ticks of 3-4 callers on clones; in every state in_flight() equals the harness's own count of live inner calls, poll_ready is Ready iff live < limit(), and after a drain in_flight() is 0 and readiness is granted.",
          "Sequentially consistent memory for the interleaving part; prompt executor and poll granularity for the service part.",
          "4 C13"),
+ "C16": ("seq", "exploration",
+         "exhaustive enumeration of fault sequences x configurations on the real ReconnectService, each run stepped event by event under virtual time",
+         "Every inner-outcome script over {ok, connection error, other error} of length max_attempts+2 is run for max_attempts {0,1,2,3,unlimited} x 5 policies x retry_on_reconnect x predicate; the inner call log must show <= max_attempts+1 calls, retries only after errors the predicate classifies as connection failures, each retry no earlier than the policy's delay, the first success or an error whose source chain carries the last inner error returned, and the published connection state Connected after a success and not Connected during every sleep and at every retry's start.",
+         "Delay numbering left open by the documentation (attempt index k-1 or k accepted); jitter lower bound checked per draw.",
+         "4 C16"),
+ "C17": ("seq", "exploration",
+         "exhaustive evaluation of a finite grid against a pure reference function",
+         "7 strategies x 4 predicates x all 27 sequences of three inner outcomes over {ok, error kind 0, error kind 1}, issued on one service and a clone with distinguishable requests; outer result (payload identity and variant), inner call log (exactly once, same request), value-function call count and backup-service call log must equal the reference function's.",
+         "None beyond the harness's instrumented inner service.",
+         "4 C17"),
+ "C18": ("seq", "model_checking",
+         "explicit-state BFS over per-interval check results of the real HealthCheckWrapper in lock-step with a reference model, plus a full selection grid",
+         "All sequences up to depth 9-12 of check results {healthy, unhealthy, degraded, unknown, slower than the timeout} for (failure, success) thresholds in {1,2,3}^2 drive the real background checker under virtual time; after every interval get_status and get_health_details must equal the documented rule. 3 resources are driven to every status vector in {H,D,U,K}^3 under 4 selection strategies: get_healthy / get_usable return only eligible resources, None iff none qualifies, and any n consecutive round-robin picks over a stable eligible set of size n visit each member once.",
+         "Checks run in tokio-spawned tasks; results sampled half an interval after each check.",
+         "4 C18"),
+ "C19": ("seq", "exploration",
+         "exhaustive evaluation of a finite grid, two equally seeded instances run side by side under virtual time",
+         "66-258 seeds x error rate {0,0.3,1} x latency rate {0,0.5,1} x 4 latency ranges (incl. min=max and min>max) x 24 requests: equal seeds give identical decisions and latencies, an injected error never reaches the inner service, rates (0,0) are transparent, error rate 1 fails every call, injected latency lies in [min,max].",
+         "Latency is measured exactly in virtual time (request start to inner call start).",
+         "4 C19"),
 }
 
 NOT_YET = {}
